@@ -310,6 +310,17 @@ def _store_array(
             raise ValueError(
                 f"Source array shape {source.shape} does not match region shape {indexer.shape}"
             )
+        # each source block is written to exactly one target block, so the
+        # chunk sizes must agree (a single source block may be smaller)
+        if any(
+            sc != tc and (nb > 1 or n > tc)
+            for n, sc, tc, nb in zip(
+                source.shape, source.chunksize, chunks, source.numblocks
+            )
+        ):
+            raise ValueError(
+                f"Source chunks {source.chunksize} do not match target chunks {chunks} for region {region}"
+            )
 
         # use this wrapper to avoid generator pickle error
         class OutputBlocksIterable(Iterable[list[int]]):
